@@ -1563,6 +1563,12 @@ func (e *Engine) call(st *State, x *ssa.Call) ([]*State, []Path) {
 		// fall through: treat as opaque
 	}
 
+	// a recognised lazy initialisation: what F builds is part of base memory
+	// (BaseMem), the call itself changes nothing a reader can tell
+	if x.Call.StaticCallee() != nil && e.w.onceOfDo(&x.Call) != nil && !e.w.onceBuilding {
+		st.env[x] = AV{Kind: KTuple}
+		return []*State{st}, nil
+	}
 	// once.Do(f): f runs here or has run before; for what the call can do, it runs
 	if name == "(*sync.Once).Do" && len(args) == 2 && args[1].Kind == KFunc && args[1].Fn != nil && args[1].Fn.Blocks != nil &&
 		e.w.Inlinable(args[1].Fn) && len(args[1].Fn.FreeVars) == len(args[1].Elems) && len(e.stack) < e.MaxDepth && !e.onStack(args[1].Fn) {
@@ -2500,16 +2506,22 @@ func (e *Engine) forkTableIndex(st *State, x *ssa.IndexAddr, base, idx AV) []*St
 	}
 	// index values = term values + K
 	var vals []int64
+	many := false
 	for _, iv0 := range cur {
 		if iv0.hi-iv0.lo > 16 {
-			return nil
+			many = true
+			break
 		}
 		for v := iv0.lo; v <= iv0.hi; v++ {
 			vals = append(vals, v)
-			if len(vals) > 16 {
-				return nil
-			}
 		}
+		if len(vals) > 16 {
+			many = true
+			break
+		}
+	}
+	if many {
+		return e.forkTableRuns(st, x, base, idx, cur, n)
 	}
 	if len(vals) < 2 {
 		return nil
@@ -2535,6 +2547,58 @@ func (e *Engine) forkTableIndex(st *State, x *ssa.IndexAddr, base, idx AV) []*St
 		s2 := st.clone()
 		s2.terms[idx.Term] = norm(rest)
 		s2.env[x] = AV{Kind: KAddr, Loc: locJoin(ensureSel(base.Loc), "[?"+idx.name()+"]")}
+		out = append(out, s2)
+	}
+	return out
+}
+
+// forkTableRuns: like forkTableIndex for an index that ranges over many
+// values (a 256-entry table indexed by a byte of the argument): when every
+// element the index can select is a known scalar constant, the state is split
+// per maximal run of indices holding the same constant. Within a run the
+// element read does not depend on the index, so the first element of the run
+// stands for all of them (the table is base memory: nothing stores into it).
+func (e *Engine) forkTableRuns(st *State, x *ssa.IndexAddr, base, idx AV, cur iset, n int64) []*State {
+	if cur.min()+idx.K < 0 || cur.max()+idx.K >= n || cur.max()-cur.min() > 4096 {
+		return nil
+	}
+	elem := func(k int64) (AV, bool) {
+		v, ok := st.mem[locJoin(ensureSel(base.Loc), fmt.Sprintf("[%d]", k))]
+		if !ok {
+			return AV{}, false
+		}
+		switch v.Kind {
+		case KInt, KStr, KBool, KNil:
+			return v, true
+		}
+		return AV{}, false
+	}
+	type run struct{ lo, hi int64 }
+	var runs []run
+	for _, iv0 := range cur {
+		var prev AV
+		for v := iv0.lo; v <= iv0.hi; v++ {
+			a, ok := elem(v + idx.K)
+			if !ok {
+				return nil
+			}
+			if v > iv0.lo && a.Kind == prev.Kind && a.K == prev.K && a.S == prev.S && a.B == prev.B {
+				runs[len(runs)-1].hi = v
+			} else {
+				runs = append(runs, run{v, v})
+			}
+			prev = a
+		}
+	}
+	if len(runs) < 2 || len(runs) > 64 {
+		return nil
+	}
+	var out []*State
+	for _, r := range runs {
+		s2 := st.clone()
+		s2.terms[idx.Term] = iset{{r.lo, r.hi}}
+		refineParent(s2, idx.Term, iset{{r.lo, r.hi}})
+		s2.env[x] = AV{Kind: KAddr, Loc: locJoin(ensureSel(base.Loc), fmt.Sprintf("[%d]", r.lo+idx.K))}
 		out = append(out, s2)
 	}
 	return out
